@@ -95,7 +95,9 @@ type Decoder struct {
 	ref    []structInfo
 	// granted counts the elements preallocated on the strength of wire counts (see prealloc)
 	granted int
-	Error   error
+	// depth counts the containers being decoded, one inside the other (see enter)
+	depth int
+	Error error
 	LongType
 	RealType
 	MapType
@@ -440,6 +442,27 @@ func (dec *Decoder) prealloc(count int) int {
 		dec.granted += count
 	}
 	return count
+}
+
+// maxDepth bounds the nesting of lists, maps and objects in the input. Every level is a level
+// of recursion in the decoder: without a bound a few megabytes of "a1{a1{a1{..." exhaust
+// the goroutine stack, which no recover can catch.
+const maxDepth = 10000
+
+// enter is called by the decoders of containers; it fails when the input nests too deep.
+func (dec *Decoder) enter() bool {
+	if dec.depth >= maxDepth {
+		if dec.Error == nil {
+			dec.Error = DecodeError("hprose/io: lists, maps and objects nested too deep")
+		}
+		return false
+	}
+	dec.depth++
+	return true
+}
+
+func (dec *Decoder) leave() {
+	dec.depth--
 }
 
 // readReferred reads a reference index and returns the item it refers to.
